@@ -42,52 +42,34 @@ def check(ctx):
             ctx.fail(fn, st.stmt, f"{st.kind} stage: {st.why}", construct=f"{st.kind}: {norm_stmt(st.stmt)[:80]}")
         elif st.kind != "select-unknown":
             ctx.ok(fn, st.stmt, f"{st.kind} {st.detail}")
+    pt = fs.path_tags()
     box = [s for s in fs.stages if s.kind in ("box-clamp", "box-drop")]
     if not box:
         ctx.missing(fn, "box stage (projection onto / removal outside the bound parameters)")
-    else:
-        heads = {cfg.node_of(b.stmt).id for b in box}
-        if cfg.can_reach(cfg.entry.id, retn.id, avoiding=heads):
-            p = cfg.find_path(cfg.entry.id, retn.id, avoiding=heads)
-            ctx.fail(fn, fn.node, "a path through the filter reaches the return without any box stage", construct="path without box stage", witness=cfg.describe_path(p))
-        else:
-            ctx.ok(fn, box[0].stmt, "every path passes a box stage")
-    for kind, what in (("dedupe", "row de-duplication (np.unique(axis=0) with order restored)"),):
+    elif "BOX" not in pt and all(b.ok for b in box) and not fs.stage("other"):
+        ctx.fail(fn, fn.node, "a path through the filter reaches the return without any box stage", construct="path without box stage")
+    elif "BOX" in pt:
+        ctx.ok(fn, box[0].stmt, "every path passes a box stage")
+    for kind, tag, what in (("dedupe", "UNIQ", "row de-duplication (np.unique(axis=0) with order restored)"),):
         sts = fs.stage(kind)
         if not sts:
             ctx.missing(fn, what)
             continue
-        heads = {cfg.node_of(s.stmt).id for s in sts}
-        if cfg.can_reach(cfg.entry.id, retn.id, avoiding=heads):
+        if tag not in pt and all(x.ok for x in sts) and not fs.stage("other"):
             ctx.fail(fn, sts[0].stmt, f"{kind} stage can be bypassed on a path to the return", construct=f"bypass of {kind}")
-        else:
+        elif tag in pt:
             ctx.ok(fn, sts[0].stmt, f"every path passes the {kind} stage")
         if kind == "dedupe" and not sts[0].detail.get("order_restored"):
             ctx.note("de-duplication does not restore the original row order (np.sort of the first-occurrence indices is absent)")
     cons = fs.stage("constraint")
     if not cons:
         ctx.missing(fn, "constraint stage (rows with C <= 0 on the inverse transform of the candidates)")
-    else:
-        tests = [n for n in cfg.nodes if n.kind == "test" and canon(n.expr) in (f"({fs.p_cons} is not None)", f"({fs.p_cons} is None)")]
-        cn = cfg.node_of(cons[0].stmt)
-        if not tests:
-            ctx.fail(fn, cons[0].stmt, "no test on the presence of the constraint callable guards the constraint stage", construct="constraint stage without presence test")
-        for t in tests:
-            lab = "T" if canon(t.expr).endswith("is not None)") else "F"
-            starts = cfg.succ(t.id, lab)
-            bypass = any(retn.id in cfg.reachable(s0, avoiding={cn.id}) for s0 in starts if s0 != cn.id)
-            if bypass:
-                p = None
-                for s0 in starts:
-                    p = p or cfg.find_path(s0, retn.id, avoiding={cn.id})
-                ctx.fail(fn, cons[0].stmt, "with a constraint callable supplied, a path reaches the return without the constraint selection", construct="constraint stage bypass", witness=cfg.describe_path(p or []))
-            else:
-                ctx.ok(fn, cons[0].stmt, "with a constraint callable every returning path applies the constraint selection")
-    # order: box < dedupe < removal < constraint in dataflow (statement order of assignments to the same variable)
-    order = [s.kind for s in fs.stages if s.kind not in ("select-unknown",)]
-    rank = {"box-clamp": 0, "box-drop": 0, "dedupe": 1, "removal": 2, "constraint": 3, "other": 9}
-    seq = [rank[k] for k in order]
-    ctx.check(seq == sorted(seq), fn, fn.node, "stage order box -> dedupe -> removal -> constraint", f"filter stages are applied in the order {order}", construct="stage order " + ">".join(order))
+    elif all(c.ok for c in cons) and not fs.stage("other"):
+        ctx.check("FEAS" in pt, fn, cons[0].stmt, "with a constraint callable every returning path applies the constraint selection", "with a constraint callable supplied, a path reaches the return without the constraint selection", construct="constraint stage bypass")
+    # dataflow order: the constraint callable only ever sees boxed rows (the policy drops FEAS otherwise); the removal
+    # compares de-duplicated rows
+    if fs.stage("removal") and "REM" not in pt and not fs.stage("other"):
+        ctx.fail(fn, fs.stage("removal")[0].stmt, "the removal of evaluated rows can be bypassed on a path to the return (for a non-empty candidate set)", construct="bypass of removal")
 
     # ------------------------------------------------------------------ R2
     ctx.rule("R2", "evaluated-row removal is a set difference against the log", floor=1)
